@@ -13,7 +13,7 @@ type lin struct {
 }
 
 func linConst(k int64) lin { return lin{coef: map[string]int64{}, k: k} }
-func linTerm(t string) lin  { return lin{coef: map[string]int64{t: 1}} }
+func linTerm(t string) lin { return lin{coef: map[string]int64{t: 1}} }
 
 func (a lin) clone() lin {
 	c := lin{coef: make(map[string]int64, len(a.coef)), k: a.k}
@@ -84,7 +84,7 @@ type constraint struct {
 	why string
 }
 
-func leq(a, b lin, why string) constraint { return constraint{a.sub(b), why} }   // a <= b
+func leq(a, b lin, why string) constraint { return constraint{a.sub(b), why} }                  // a <= b
 func lt(a, b lin, why string) constraint  { return constraint{a.sub(b).add(linConst(1)), why} } // a < b  (integers)
 
 // infeasible decides by Fourier-Motzkin elimination whether the conjunction of the
